@@ -18,6 +18,17 @@ class BlockExc(Exception):
     label = "block"
 
 
+class FalsyNew(Exception):
+    """A replacement exception whose truth value is False."""
+
+    def __init__(self, label):
+        Exception.__init__(self, label)
+        self.label = label
+
+    def __len__(self):
+        return 0
+
+
 class NewBase(BaseException):
     def __init__(self, label):
         BaseException.__init__(self, label)
@@ -25,7 +36,7 @@ class NewBase(BaseException):
 
 
 KINDS = ("acm", "scm", "push-async-fn", "push-sync-fn", "callback-sync", "callback-async", "push-acm", "push-scm", "push-async-obj", "push-async-partial", "callback-async-obj", "push-fn-returning-awaitable", "callback-kwargs-only")
-BEHS = ("falsy", "truthy", "raise-new", "raise-new-if-exception", "raise-new-BaseException")
+BEHS = ("falsy", "truthy", "raise-new", "raise-new-if-exception", "raise-new-BaseException", "raise-new-falsy-exception")
 NK, NB = len(KINDS), len(BEHS)
 
 
@@ -52,6 +63,8 @@ class Entry:
             raise New("new-%d" % self.eid)
         if b == 4:
             raise NewBase("newbase-%d" % self.eid)
+        if b == 5:
+            raise FalsyNew("newfalsy-%d" % self.eid)
         if ev is not None:
             raise New("new-%d" % self.eid)
         return 0
@@ -66,6 +79,8 @@ class Entry:
             return True  # must not suppress
         if b == 4:
             raise NewBase("newbase-%d" % self.eid)
+        if b == 5:
+            raise FalsyNew("newfalsy-%d" % self.eid)
         if b >= 2:
             raise New("new-%d" % self.eid)
         return None
@@ -321,6 +336,8 @@ def _pre(n, k0, b0, k1, b1, k2, b2, failing):
     vals = {"n": n, "k0": k0, "k1": k1, "k2": k2, "b0": b0, "b1": b1, "b2": b2, "failing": failing}
     for nm in fx:
         ok = ok and vals[nm] == fx[nm]
+    if P("b0r") is not None:
+        ok = ok and P("b0r")[0] <= b0 <= P("b0r")[1]
     return ok
 
 
@@ -490,6 +507,8 @@ def _grid_stack():
         n = fx.get("n", rnd.randint(0, N))
         ks = [fx.get("k%d" % i, rnd.randrange(NK)) if i < N else 0 for i in range(3)]
         bs = [fx.get("b%d" % i, rnd.randrange(NB)) if i < N else 0 for i in range(3)]
+        if P("b0r") is not None:
+            bs[0] = rnd.randint(P("b0r")[0], P("b0r")[1])
         failing = fx.get("failing", rnd.randint(-1, n - 1) if (P("failing", False) and n) else -1)
         out.append((n, ks[0], bs[0], ks[1], bs[1], ks[2], bs[2], rnd.random() < 0.5, failing))
     return out
@@ -514,7 +533,8 @@ def jobs(tier):
         add("h_stack", N=2, fix={"n": 2, "k0": k0})
     for fi in (0, 1):
         for kf in (0, 1):  # the entry whose enter fails is an async / a sync context manager
-            add("h_stack", N=2, failing=True, fix={"n": 2, "failing": fi, "k%d" % fi: kf})
+            for b0 in range(0, NB, 2):  # split by the first entry's behaviour (pairs)
+                add("h_stack", N=2, failing=True, fix={"n": 2, "failing": fi, "k%d" % fi: kf}, b0r=(b0, b0 + 1))
     if not q:
         for k0 in range(NK):
             for k1 in range(NK):
@@ -526,7 +546,7 @@ def jobs(tier):
 
 LEVEL = "other"
 BOUNDS = {
-    "quick": "stacks of 0..2 entries, each {entered async CM, entered sync CM, pushed async fn, pushed sync fn, sync callback with args, async callback with args, pushed (not entered) async CM, pushed sync CM, pushed callable object returning a coroutine, pushed partial(async def), callback object returning a coroutine, pushed function returning a non-coroutine awaitable, callback with keyword arguments only} x {falsy, truthy, raise new, raise new only when an exception is in flight, raise a new BaseException}, block normal/raising, one entry whose enter fails; oracles: contextlib.AsyncExitStack and recursively built nested async-with; histories of 4 operations over {register, register an exit that raises, aclose, aclose from inside an except block, pop_all, with-block, with-block raising, aclose popped stack} followed by closing everything",
+    "quick": "stacks of 0..2 entries, each {entered async CM, entered sync CM, pushed async fn, pushed sync fn, sync callback with args, async callback with args, pushed (not entered) async CM, pushed sync CM, pushed callable object returning a coroutine, pushed partial(async def), callback object returning a coroutine, pushed function returning a non-coroutine awaitable, callback with keyword arguments only} x {falsy, truthy, raise new, raise new only when an exception is in flight, raise a new BaseException, raise a new exception object that is falsy}, block normal/raising, one entry whose enter fails; oracles: contextlib.AsyncExitStack and recursively built nested async-with; histories of 4 operations over {register, register an exit that raises, aclose, aclose from inside an except block, pop_all, with-block, with-block raising, aclose popped stack} followed by closing everything",
     "thorough": "stacks of 3 entries, histories of 5 operations",
 }
 OUTSIDE = ["__context__/__cause__ chains", "4 entries", "exits that suspend (covered by C17/C18)"]
